@@ -167,7 +167,10 @@ pub fn probes(run: &RunResult) -> BTreeMap<&'static str, u64> {
             }
         }
     }
-    if t.exit.is_some() && t.tasks.iter().any(|k| k.tid != 0 && k.status != "finished" && (k.pending.starts_with("fs.") || k.pending.starts_with("lib."))) {
+    // the walk stopped on a configuration error after at least one job had been dispatched
+    if (stderr.contains("Config file not in correct format") || stderr.contains("Failed to read config"))
+        && t.events.iter().any(|e| e.tid != 0 && (e.label.starts_with("fs.read") || e.label.starts_with("lib.format_code")))
+    {
         out.insert("abort_while_workers_busy", 1);
     }
     out
